@@ -259,8 +259,442 @@ def walk_tests(fn):
     return out
 
 
+# ---------------------------------------------------------------- round 5: what decides the grid, and the pair loop
+# A small exact-rational expression compiler: names (env), float/int constants (the exact value of the double), + - * /,
+# unary minus, float(x), abs(x), max(a, b), int(np.floor(x)) / np.floor(x) (as inject_Z (Qfloor x)), self.<attr> (env),
+# comparisons and `and` / `or`.
+
+from fractions import Fraction
+
+
+def qconst(v):
+    if isinstance(v, bool) or not isinstance(v, (int, float)):
+        raise U('constant %r' % (v,))
+    fr = Fraction(v)
+    return '(Qmake %d %d)' % (fr.numerator, fr.denominator) if fr.numerator >= 0 else '(Qopp (Qmake %d %d))' % (-fr.numerator, fr.denominator)
+
+
+def qx(node, env):
+    if isinstance(node, ast.Constant):
+        return qconst(node.value)
+    if isinstance(node, ast.Name):
+        if node.id in env:
+            return env[node.id]
+        raise U('free name %s' % node.id)
+    if isinstance(node, ast.Attribute) and isinstance(node.value, ast.Name) and node.value.id in ('self', 'chunk'):
+        if node.attr in env:
+            return env[node.attr]
+        raise U('free attribute %s' % node.attr)
+    if isinstance(node, ast.UnaryOp) and isinstance(node.op, ast.USub):
+        return '(Qopp %s)' % qx(node.operand, env)
+    if isinstance(node, ast.BinOp) and type(node.op) in QBIN:
+        return '(%s %s %s)' % (QBIN[type(node.op)], qx(node.left, env), qx(node.right, env))
+    if isinstance(node, ast.Call) and isinstance(node.func, ast.Name) and not node.keywords:
+        f = node.func.id
+        if f == 'float' and len(node.args) == 1:
+            return qx(node.args[0], env)
+        if f == 'abs' and len(node.args) == 1:
+            return '(Qabs %s)' % qx(node.args[0], env)
+        if f == 'max' and len(node.args) == 2:
+            a, b = qx(node.args[0], env), qx(node.args[1], env)
+            return '(if Qle_bool %s %s then %s else %s)' % (b, a, a, b)
+        if f == 'int' and len(node.args) == 1:
+            return qx(node.args[0], env)
+    if isinstance(node, ast.Call) and isinstance(node.func, ast.Attribute) and isinstance(node.func.value, ast.Name) \
+            and node.func.value.id == 'np' and not node.keywords:
+        if node.func.attr == 'floor' and len(node.args) == 1:
+            return '(inject_Z (Qfloor %s))' % qx(node.args[0], env)
+        if node.func.attr == 'fmod' and len(node.args) == 2:
+            return '(qfmod %s %s)' % (qx(node.args[0], env), qx(node.args[1], env))
+        if node.func.attr == 'where' and len(node.args) == 3:
+            return '(if %s then %s else %s)' % (qcond(node.args[0], env), qx(node.args[1], env), qx(node.args[2], env))
+    if isinstance(node, ast.Call) and isinstance(node.func, ast.Attribute) and node.func.attr == 'wrapra' and len(node.args) == 1 \
+            and isinstance(node.func.value, ast.Name) and node.func.value.id in ('self', 'chunk') and not node.keywords and 'wrapra' in env:
+        return '(%s %s)' % (env['wrapra'], qx(node.args[0], env))
+    raise U('rational expression %s' % ast.dump(node)[:90])
+
+
+QCMP = {ast.Lt: ('Qlt_bool', False), ast.Gt: ('Qlt_bool', True), ast.LtE: ('Qle_bool', False), ast.GtE: ('Qle_bool', True),
+        ast.Eq: ('Qeq_bool', False)}
+
+
+def qcond(node, env):
+    if isinstance(node, ast.BoolOp):
+        op = ' && ' if isinstance(node.op, ast.And) else ' || '
+        return '(' + op.join(qcond(v, env) for v in node.values) + ')'
+    if isinstance(node, ast.Compare) and len(node.ops) == 1 and type(node.ops[0]) in QCMP:
+        f, swap = QCMP[type(node.ops[0])]
+        a, b = qx(node.left, env), qx(node.comparators[0], env)
+        if swap:
+            a, b = b, a
+        return '(%s %s %s)' % (f, a, b)
+    raise U('rational condition %s' % ast.dump(node)[:90])
+
+
+def is_fmod(node):
+    """np.fmod(A, M) -> (A, M)"""
+    if isinstance(node, ast.Call) and isinstance(node.func, ast.Attribute) and node.func.attr == 'fmod' and \
+            isinstance(node.func.value, ast.Name) and node.func.value.id == 'np' and len(node.args) == 2 and not node.keywords:
+        return node.args
+    raise U('np.fmod(a, m) expected: %s' % ast.dump(node)[:80])
+
+
+def wrapra_call(node, env):
+    """self.wrapra(E) / float(self.wrapra(E)) / float(chunk.wrapra(E)) -> gen_wrapra E"""
+    if isinstance(node, ast.Call) and isinstance(node.func, ast.Name) and node.func.id == 'float' and len(node.args) == 1:
+        node = node.args[0]
+    if not (isinstance(node, ast.Call) and isinstance(node.func, ast.Attribute) and node.func.attr == 'wrapra'):
+        raise U('wrapra(...) expected: %s' % ast.dump(node)[:80])
+    return qx(node, dict(env, wrapra='gen_wrapra'))
+
+
+def gen_wrapra(cls, out):
+    fn = P.find_function(cls, 'wrapra')
+    if [ast.dump(d) for d in fn.decorator_list] != [ast.dump(ast.parse('staticmethod').body[0].value)] or \
+            [a.arg for a in fn.args.args] != ['ra']:
+        raise U('wrapra: @staticmethod def wrapra(ra)')
+    body = nodoc(fn.body)
+    if len(body) != 3 or not isinstance(body[2], ast.Return):
+        raise U('wrapra body')
+    e = {'ra': 'ra', 'currRa': 'currRa'}
+    t1 = qx(name_assign(body[0], 'currRa'), e)
+    t2 = qx(name_assign(body[1], 'currRa'), e)
+    t3 = qx(body[2].value, e)
+    out.append('(* chunks.wrapra, source line %d *)' % fn.lineno)
+    out.append(defn('gen_wrapra', '(ra : Q)', 'Q', '(let currRa := %s in let currRa := %s in %s)' % (t1, t2, t3)))
+
+
+def name_assign(st, name):
+    if isinstance(st, ast.Assign) and len(st.targets) == 1 and isinstance(st.targets[0], ast.Name) and st.targets[0].id == name:
+        return st.value
+    raise U('assignment to %s expected' % name)
+
+
+def attr_assign(st, attr):
+    if isinstance(st, ast.Assign) and len(st.targets) == 1 and self_attr(st.targets[0], attr):
+        return st.value
+    raise U('assignment to self.%s expected' % attr)
+
+
+def nodoc(body):
+    return [b for b in body if not (isinstance(b, ast.Expr) and isinstance(b.value, ast.Constant) and isinstance(b.value.value, str))]
+
+
+def range_of(it, what):
+    if not (isinstance(it, ast.Call) and isinstance(it.func, ast.Name) and it.func.id == 'range' and len(it.args) == 1 and not it.keywords):
+        raise U('%s: range(n) expected' % what)
+    return it.args[0]
+
+
+def gen_rarange(cls, out):
+    fn = P.find_function(cls, 'rarange')
+    body = nodoc(fn.body)
+    consts = {}
+    k = 0
+    while k < len(body) and isinstance(body[k], ast.Assign) and isinstance(body[k].value, ast.Constant):
+        t = body[k].targets[0]
+        if not isinstance(t, ast.Name):
+            raise U('rarange constants')
+        consts[t.id] = body[k].value.value
+        k += 1
+    for nm in ('NRA', 'raRangeMin', 'raOffset', 'EPS'):
+        if nm not in consts:
+            raise U('rarange: constant %s' % nm)
+    if len(body) != k + 2 or not isinstance(body[k], ast.For) or not isinstance(body[k + 1], ast.Return):
+        raise U('rarange: for loop followed by return expected')
+    loop, ret = body[k], body[k + 1]
+    if not (isinstance(loop.target, ast.Name) and loop.target.id == 'j') or loop.orelse:
+        raise U('rarange loop variable')
+    n = range_of(loop.iter, 'rarange loop')
+    if not (isinstance(n, ast.Name) and n.id == 'NRA'):
+        raise U('rarange loop bound')
+    if not (isinstance(ret.value, ast.Tuple) and [getattr(e, 'id', None) for e in ret.value.elts] == ['raRangeMin', 'raOffset']):
+        raise U('rarange return value')
+    lb = loop.body
+    if len(lb) != 3:
+        raise U('rarange loop body')
+    st0 = lb[0]
+    if not (isinstance(st0, ast.Assign) and isinstance(st0.targets[0], ast.Tuple) and
+            [getattr(e, 'id', None) for e in st0.targets[0].elts] == ['raMin', 'raMax'] and isinstance(st0.value, ast.Call) and
+            self_attr(st0.value.func, 'getraminmax') and len(st0.value.args) == 2 and
+            isinstance(st0.value.args[0], ast.Name) and st0.value.args[0].id == 'ra'):
+        raise U('rarange: raMin, raMax = self.getraminmax(ra, offset)')
+    off1 = st0.value.args[1]
+    rng = name_assign(lb[1], 'raRange')
+    iff = lb[2]
+    if not isinstance(iff, ast.If) or iff.orelse or len(iff.body) != 2:
+        raise U('rarange: if statement')
+    v1 = name_assign(iff.body[0], 'raRangeMin')
+    if not (isinstance(v1, ast.Name) and v1.id == 'raRange'):
+        raise U('rarange: raRangeMin = raRange')
+    off2 = name_assign(iff.body[1], 'raOffset')
+    if ast.dump(off1) != ast.dump(off2):
+        raise U('rarange: the offset tried and the offset stored differ')
+    cenv = {'NRA': qconst(consts['NRA']), 'EPS': qconst(consts['EPS'])}
+    out.append('(* rarange(), source line %d *)' % fn.lineno)
+    out.append(defn('gen_rarange_nra', '', 'Z', P.zlit(int(consts['NRA']))))
+    out.append(defn('gen_rarange_init', '', '(Q * Q)', '(%s, %s)' % (qconst(consts['raRangeMin']), qconst(consts['raOffset']))))
+    out.append(defn('gen_rarange_offset', '(j : Q)', 'Q', qx(off1, dict(cenv, j='j'))))
+    out.append(defn('gen_rarange_range', '(raMin raMax : Q)', 'Q', qx(rng, {'raMin': 'raMin', 'raMax': 'raMax'})))
+    out.append(defn('gen_rarange_accept', '(raRange raRangeMin raMin raMax minSize : Q)', 'bool',
+                    qcond(iff.test, dict(cenv, raRange='raRange', raRangeMin='raRangeMin', raMin='raMin', raMax='raMax', minSize='minSize'))))
+    # getraminmax
+    g = P.find_function(cls, 'getraminmax')
+    gb = nodoc(g.body)
+    if len(gb) != 2 or not isinstance(gb[1], ast.Return):
+        raise U('getraminmax body')
+    cur = name_assign(gb[0], 'currRa')
+    r = gb[1].value
+    ok = isinstance(r, ast.Tuple) and len(r.elts) == 2 and all(
+        isinstance(e, ast.Call) and isinstance(e.func, ast.Attribute) and isinstance(e.func.value, ast.Name) and e.func.value.id == 'currRa'
+        and not e.args for e in r.elts) and [e.func.attr for e in r.elts] == ['min', 'max']
+    if not ok:
+        raise U('getraminmax return value')
+    out.append(defn('gen_currRa_init', '(ra raOffset : Q)', 'Q', wrapra_call(cur, {'ra': 'ra', 'raOffset': 'raOffset'})))
+
+
+def gen_init(cls, out):
+    fn = P.find_function(cls, '__init__')
+    body = nodoc(fn.body)
+
+    def find(pred, what):
+        for i, st in enumerate(body):
+            try:
+                v = pred(st)
+            except U:
+                continue
+            return i, v
+        raise U('__init__: %s not found' % what)
+    e = {'decMin': 'decMin', 'decMax': 'decMax', 'decRange': 'decRange', 'minSize': 'minSize', 'nDec': 'nDec'}
+    i0, v = find(lambda st: name_assign(st, 'decRange'), 'decRange')
+    if not (ast.dump(body[i0 - 2].value) == ast.dump(ast.parse('dec.min()').body[0].value) and
+            ast.dump(body[i0 - 1].value) == ast.dump(ast.parse('dec.max()').body[0].value) and
+            isinstance(body[i0 - 2].targets[0], ast.Name) and body[i0 - 2].targets[0].id == 'decMin' and body[i0 - 1].targets[0].id == 'decMax'):
+        raise U('__init__: decMin = dec.min(); decMax = dec.max()')
+    out.append('(* chunks.__init__, declination, source line %d *)' % body[i0].lineno)
+    out.append(defn('gen_init_decRange0', '(decMin decMax : Q)', 'Q', qx(v, e)))
+    seq = body[i0 + 1:i0 + 7]
+    nd = attr_assign(seq[0], 'nDec')
+    out.append(defn('gen_init_nDec', '(decRange minSize : Q)', 'Q', qx(nd, e)))
+    out.append(defn('gen_init_decRange', '(minSize nDec : Q)', 'Q', qx(name_assign(seq[1], 'decRange'), e)))
+    out.append(defn('gen_init_decMin', '(decMin decMax decRange : Q)', 'Q', qx(name_assign(seq[2], 'decMin'), e)))
+    out.append(defn('gen_init_decMax', '(decMin decRange : Q)', 'Q', qx(name_assign(seq[3], 'decMax'), e)))
+    for st, nm in ((seq[4], 'decMin'), (seq[5], 'decMax')):
+        if not isinstance(st, ast.If) or st.orelse or len(st.body) != 1:
+            raise U('__init__: clamp of %s' % nm)
+        out.append(defn('gen_init_clamp_%s_test' % nm, '(%s minSize : Q)' % nm, 'bool', qcond(st.test, e)))
+        out.append(defn('gen_init_clamp_%s_val' % nm, '', 'Q', qx(name_assign(st.body[0], nm), e)))
+    # decBounds = decMin + ((decMax - decMin) * np.arange(nDec + 1, dtype='d'))/float(nDec);  the two ends pinned
+    db = attr_assign(body[i0 + 7], 'decBounds')
+
+    def arange(n):
+        if isinstance(n, ast.Call) and isinstance(n.func, ast.Attribute) and n.func.attr == 'arange' and len(n.args) == 1:
+            a = n.args[0]
+            if isinstance(a, ast.BinOp) and isinstance(a.op, ast.Add) and P.const_value(a.right) == 1:
+                return 'k'
+            raise U('np.arange argument')
+        return None
+    out.append(defn('gen_init_decBound', '(decMin decMax k nDec : Q)', 'Q', qx(sub_names(db, [arange]), dict(e, k='k'))))
+    pins = body[i0 + 8:i0 + 10]
+    want = ['self.decBounds[0] = decMin', 'self.decBounds[self.nDec] = decMax']
+    for st, w in zip(pins, want):
+        if ast.dump(st) != ast.dump(ast.parse(w).body[0]):
+            raise U('__init__: end bounds are not pinned (%s)' % w)
+    # rarange call and raMin/raMax
+    i1, v = find(lambda st: (lambda t: t)(st) if (isinstance(st, ast.Assign) and isinstance(st.targets[0], ast.Tuple) and
+                                                  self_attr(st.targets[0].elts[0], 'raRange')) else (_ for _ in ()).throw(U('x')), 'rarange call')
+    call = body[i1].value
+    if not (isinstance(call, ast.Call) and self_attr(call.func, 'rarange') and len(call.args) == 2 and
+            self_attr(body[i1].targets[0].elts[1], 'raOffset')):
+        raise U('__init__: self.raRange, self.raOffset = self.rarange(ra, ...)')
+    out.append(defn('gen_init_rarange_arg', '(minSize cosDecMin : Q)', 'Q', qx(call.args[1], {'minSize': 'minSize', 'cosDecMin': 'cosDecMin'})))
+    if ast.dump(body[i1 + 1]) != ast.dump(ast.parse('self.raMin, self.raMax = self.getraminmax(ra, self.raOffset)').body[0]):
+        raise U('__init__: raMin, raMax')
+    out.append(defn('gen_init_raRange', '(raMin raMax : Q)', 'Q', qx(attr_assign(body[i1 + 2], 'raRange'), {'raMin': 'raMin', 'raMax': 'raMax'})))
+    # the slice loop
+    loops = [st for st in body if isinstance(st, ast.For)]
+    if len(loops) != 1:
+        raise U('__init__: one slice loop expected')
+    lp = loops[0]
+    n = range_of(lp.iter, 'slice loop')
+    if not self_attr(n, 'nDec') or not (isinstance(lp.target, ast.Name) and lp.target.id == 'i'):
+        raise U('__init__: for i in range(self.nDec)')
+    lb = nodoc(lp.body)
+    if len(lb) != 9:
+        raise U('__init__: slice loop body has %d statements' % len(lb))
+
+    def sl(nn):
+        if is_sub(nn, 'nRa'):
+            return 'nRa'
+        if is_sub(nn, 'decBounds'):
+            s_ = nn.slice
+            if isinstance(s_, ast.Name) and s_.id == 'i':
+                return 'declo'
+            if isinstance(s_, ast.BinOp) and isinstance(s_.op, ast.Add) and isinstance(s_.left, ast.Name) and s_.left.id == 'i' and P.const_value(s_.right) == 1:
+                return 'dechi'
+            raise U('decBounds subscript in the slice loop')
+        return None
+    se = {'cosDecMin': 'cosDecMin', 'raRange': 'raRange', 'minSize': 'minSize', 'nRa': 'nRa', 'raMin': 'raMin', 'raMax': 'raMax',
+          'raRangeTmp': 'raRangeTmp', 'raMinTmp': 'raMinTmp', 'raMaxTmp': 'raMaxTmp', 'declo': 'declo', 'dechi': 'dechi', 'k': 'k'}
+    # lb[0]: cosDecMin selection; lb[1]: cosDecMin <= 0 raise
+    c0 = lb[0]
+    if not (isinstance(c0, ast.If) and len(c0.body) == 1 and len(c0.orelse) == 1):
+        raise U('__init__: cosDecMin selection')
+    out.append('(* chunks.__init__, slice loop, source line %d *)' % lp.lineno)
+    out.append(defn('gen_init_cos_of_lo', '(declo dechi : Q)', 'bool', qcond(sub_names(c0.test, [sl]), se)))
+    for br, nm in ((c0.body[0], 'declo'), (c0.orelse[0], 'dechi')):
+        v = name_assign(br, 'cosDecMin')
+        if ast.dump(sub_names(v, [sl])) != ast.dump(ast.parse('np.cos(np.deg2rad(%s))' % nm).body[0].value):
+            raise U('__init__: cosDecMin = cos(deg2rad(bound))')
+    if not (isinstance(lb[1], ast.If) and isinstance(lb[1].body[0], ast.Raise)):
+        raise U('__init__: cosDecMin <= 0 raise')
+    out.append(defn('gen_init_cos_bad', '(cosDecMin : Q)', 'bool', qcond(lb[1].test, se)))
+    ap = lb[2]
+    if not (isinstance(ap, ast.Expr) and isinstance(ap.value, ast.Call) and isinstance(ap.value.func, ast.Attribute) and
+            ap.value.func.attr == 'append' and self_attr(ap.value.func.value, 'nRa') and len(ap.value.args) == 1):
+        raise U('__init__: self.nRa.append(...)')
+    out.append(defn('gen_init_nRa', '(cosDecMin raRange minSize : Q)', 'Q', qx(ap.value.args[0], se)))
+    out.append(defn('gen_init_raRangeTmp', '(minSize nRa cosDecMin : Q)', 'Q', qx(sub_names(name_assign(lb[3], 'raRangeTmp'), [sl]), se)))
+    out.append(defn('gen_init_raMinTmp', '(raMin raMax raRangeTmp : Q)', 'Q', qx(name_assign(lb[4], 'raMinTmp'), se)))
+    out.append(defn('gen_init_raMaxTmp', '(raMinTmp raRangeTmp : Q)', 'Q', qx(name_assign(lb[5], 'raMaxTmp'), se)))
+    em = lb[6]
+    if not isinstance(em, ast.If) or em.orelse or len(em.body) != 3:
+        raise U('__init__: embrace clause')
+    out.append(defn('gen_init_embrace', '(raRangeTmp raMinTmp raMaxTmp minSize cosDecMin declo : Q)', 'bool', qcond(sub_names(em.test, [sl]), se)))
+    vals = {}
+    for st in em.body:
+        if not (isinstance(st, ast.Assign) and isinstance(st.targets[0], ast.Name) and isinstance(st.value, ast.Constant)):
+            raise U('__init__: embrace assignments')
+        vals[st.targets[0].id] = st.value.value
+    if sorted(vals) != ['raMaxTmp', 'raMinTmp', 'raRangeTmp']:
+        raise U('__init__: embrace assignments')
+    out.append(defn('gen_init_embrace_lo', '', 'Q', qconst(vals['raMinTmp'])))
+    out.append(defn('gen_init_embrace_hi', '', 'Q', qconst(vals['raMaxTmp'])))
+    po = lb[7]
+    if not isinstance(po, ast.If) or po.orelse or len(po.body) != 1 or not is_sub(po.body[0].targets[0], 'nRa'):
+        raise U('__init__: polar clause')
+    out.append(defn('gen_init_polar', '(declo dechi : Q)', 'bool', qcond(sub_names(po.test, [sl]), se)))
+    out.append(defn('gen_init_polar_nRa', '', 'Q', qx(po.body[0].value, se)))
+    rb = lb[8]
+    if not (isinstance(rb, ast.Expr) and isinstance(rb.value, ast.Call) and isinstance(rb.value.func, ast.Attribute) and
+            rb.value.func.attr == 'append' and self_attr(rb.value.func.value, 'raBounds') and len(rb.value.args) == 1):
+        raise U('__init__: self.raBounds.append(...)')
+    out.append(defn('gen_init_raBound', '(raMinTmp raMaxTmp k nRa : Q)', 'Q', qx(sub_names(rb.value.args[0], [arange, sl]), se)))
+
+
+def gen_match_head(tree, cls, out):
+    fns = {n.name: n for n in tree.body if isinstance(n, ast.FunctionDef)}
+    fn = fns['spherematch']
+    body = nodoc(fn.body)
+    c0 = body[0]
+    if not (isinstance(c0, ast.If) and len(c0.body) == 1 and len(c0.orelse) == 1 and isinstance(c0.orelse[0], ast.If) and
+            ast.dump(c0.test) == ast.dump(ast.parse('chunksize is None').body[0].value)):
+        raise U('spherematch: chunksize default')
+    e = {'matchlength': 'L', 'chunksize': 'chunksize'}
+    out.append('(* spherematch(), head, source line %d *)' % c0.lineno)
+    out.append(defn('gen_chunksize_default', '(L : Q)', 'Q', qx(name_assign(c0.body[0], 'chunksize'), e)))
+    c1 = c0.orelse[0]
+    if c1.orelse:
+        raise U('spherematch: chunksize elif has an else')
+    out.append(defn('gen_chunksize_small', '(chunksize L : Q)', 'bool', qcond(c1.test, e)))
+    out.append(defn('gen_chunksize_floor', '(L : Q)', 'Q', qx(name_assign(c1.body[0], 'chunksize'), e)))
+    # chunk = chunks(ra1, dec1, chunksize); chunk.assign(ra2, dec2, matchlength)
+    want = ['chunk = chunks(ra1, dec1, chunksize)', 'chunk.assign(ra2, dec2, matchlength)']
+    idx = [k for k, st in enumerate(body) if ast.dump(st) == ast.dump(ast.parse(want[0]).body[0])]
+    if len(idx) != 1 or ast.dump(body[idx[0] + 1]) != ast.dump(ast.parse(want[1]).body[0]):
+        raise U('spherematch: chunks(ra1, dec1, chunksize) / assign(ra2, dec2, matchlength)')
+    # the pair loop
+    loops = [st for st in body if isinstance(st, ast.For) and isinstance(st.target, ast.Name) and st.target.id == 'i'
+             and any(isinstance(x, ast.For) for x in ast.walk(st) if x is not st)]
+    if len(loops) != 1:
+        raise U('spherematch: pair loop')
+    lp = loops[0]
+    n = range_of(lp.iter, 'pair loop')
+    if ast.dump(n) != ast.dump(ast.parse('ra1.size').body[0].value):
+        raise U('spherematch: for i in range(ra1.size)')
+    lb = lp.body
+    if len(lb) != 4:
+        raise U('spherematch: pair loop body')
+    cur = name_assign(lb[0], 'currra')
+    out.append(defn('gen_currRa_match', '(ra raOffset : Q)', 'Q',
+                    wrapra_call(sub_names(cur, [lambda x: 'ra' if is_sub(x, 'ra1') else None]), {'ra': 'ra', 'raOffset': 'raOffset'})))
+    if ast.dump(lb[1]) != ast.dump(ast.parse('rachunk, decchunk = chunk.get(currra, dec1[i])').body[0]):
+        raise U('spherematch: rachunk, decchunk = chunk.get(currra, dec1[i])')
+    if ast.dump(lb[2]) != ast.dump(ast.parse('jmax = len(chunk.chunkList[decchunk][rachunk])').body[0]):
+        raise U('spherematch: jmax')
+    g = lb[3]
+    if not (isinstance(g, ast.If) and not g.orelse and len(g.body) == 1 and isinstance(g.body[0], ast.For) and
+            ast.dump(g.test) == ast.dump(ast.parse('jmax > 0').body[0].value)):
+        raise U('spherematch: if jmax > 0')
+    inner = g.body[0]
+    if not (isinstance(inner.target, ast.Name) and inner.target.id == 'j' and
+            ast.dump(range_of(inner.iter, 'inner loop')) == ast.dump(ast.parse('jmax').body[0].value)) or len(inner.body) != 3:
+        raise U('spherematch: for j in range(jmax)')
+    if ast.dump(inner.body[0]) != ast.dump(ast.parse('k = chunk.chunkList[decchunk][rachunk][j]').body[0]):
+        raise U('spherematch: k = chunkList[...][j]')
+    sp = name_assign(inner.body[1], 'sep')
+    if not (isinstance(sp, ast.BinOp) and isinstance(sp.op, ast.Div) and isinstance(sp.left, ast.Call) and
+            isinstance(sp.left.func, ast.Name) and sp.left.func.id == 'gcirc' and
+            [ast.dump(x) for x in sp.left.args] == [ast.dump(ast.parse(t).body[0].value) for t in ('ra1[i]', 'dec1[i]', 'ra2[k]', 'dec2[k]')] and
+            len(sp.left.keywords) == 1 and sp.left.keywords[0].arg == 'units'):
+        raise U('spherematch: sep = gcirc(ra1[i], dec1[i], ra2[k], dec2[k], units=...)/scale')
+    out.append(defn('gen_pair_units', '', 'Z', P.zlit(P.const_value(sp.left.keywords[0].value))))
+    out.append(defn('gen_pair_scale', '', 'Q', qx(sp.right, {})))
+    t = inner.body[2]
+    if not isinstance(t, ast.If) or t.orelse or len(t.body) != 3:
+        raise U('spherematch: filter')
+    out.append(defn('gen_pair_test', '(sep L : Q)', 'bool', qcond(t.test, {'sep': 'sep', 'matchlength': 'L'})))
+    for st, w in zip(t.body, ('match1.append(i)', 'match2.append(k)', 'distance12.append(sep)')):
+        if ast.dump(st) != ast.dump(ast.parse(w).body[0]):
+            raise U('spherematch: %s' % w)
+    # the sort and the unlimited branch
+    for w in ('omatch1 = np.array(match1)', 'omatch2 = np.array(match2)', 'odistance12 = np.array(distance12)', 's = odistance12.argsort()'):
+        if not any(ast.dump(st) == ast.dump(ast.parse(w).body[0]) for st in body):
+            raise U('spherematch: %s' % w)
+    sel = [st for st in body if isinstance(st, ast.If) and ast.dump(st.test) == ast.dump(ast.parse('maxmatch > 0').body[0].value)]
+    if len(sel) != 1 or [ast.dump(x) for x in sel[0].orelse] != [ast.dump(ast.parse(w).body[0]) for w in
+                                                                  ('match1 = omatch1[s]', 'match2 = omatch2[s]', 'distance12 = odistance12[s]')]:
+        raise U('spherematch: unlimited branch omatch[s]')
+    if ast.dump(body[-1]) != ast.dump(ast.parse('return (match1, match2, distance12)').body[0]):
+        raise U('spherematch: return value')
+    # assign(): the guard and the rotation
+    fa = P.find_function(cls, 'assign')
+    ab = nodoc(fa.body)
+    if not (isinstance(ab[0], ast.If) and isinstance(ab[0].body[0], ast.Raise)):
+        raise U('assign: guard')
+    out.append(defn('gen_assign_guard', '(marginSize minSize : Q)', 'bool', qcond(ab[0].test, {'marginSize': 'marginSize', 'minSize': 'minSize'})))
+    curs = [x for x in ast.walk(fa) if isinstance(x, ast.Assign) and isinstance(x.targets[0], ast.Name) and x.targets[0].id == 'currRa']
+    if len(curs) != 1:
+        raise U('assign: currRa')
+    out.append(defn('gen_currRa_assign', '(ra raOffset : Q)', 'Q',
+                    wrapra_call(sub_names(curs[0].value, [lambda x: 'ra' if is_sub(x, 'ra') else None]), {'ra': 'ra', 'raOffset': 'raOffset'})))
+    calls = [x for x in ast.walk(fa) if isinstance(x, ast.Call) and self_attr(x.func, 'getbounds')]
+    if len(calls) != 1 or ast.dump(calls[0]) != ast.dump(ast.parse('self.getbounds(currRa, dec[i], marginSize)').body[0].value):
+        raise U('assign: self.getbounds(currRa, dec[i], marginSize)')
+    # get(): the return order (raChunk, decChunk) that spherematch unpacks as rachunk, decchunk
+    fg = P.find_function(cls, 'get')
+    if ast.dump(nodoc(fg.body)[-1]) != ast.dump(ast.parse('return (raChunk, decChunk)').body[0]):
+        raise U('get: return (raChunk, decChunk)')
+    # getbounds(): raMargin
+    fgb = P.find_function(cls, 'getbounds')
+    me = {'marginSize': 'marginSize', 'dec': 'dec', 'sinMargin': 'sinMargin', 'cosDec': 'cosDec'}
+    sm = [x for x in ast.walk(fgb) if isinstance(x, ast.Assign) and isinstance(x.targets[0], ast.Name) and x.targets[0].id == 'sinMargin']
+    cd = [x for x in ast.walk(fgb) if isinstance(x, ast.Assign) and isinstance(x.targets[0], ast.Name) and x.targets[0].id == 'cosDec']
+    if len(sm) != 1 or len(cd) != 1 or ast.dump(sm[0].value) != ast.dump(ast.parse('np.sin(np.deg2rad(marginSize))').body[0].value) or \
+            ast.dump(cd[0].value) != ast.dump(ast.parse('np.cos(np.deg2rad(dec))').body[0].value):
+        raise U('getbounds: sinMargin / cosDec')
+    rm = [x for x in ast.walk(fgb) if isinstance(x, ast.If) and any(isinstance(y, ast.Assign) and isinstance(y.targets[0], ast.Name) and
+                                                                 y.targets[0].id == 'raMargin' for y in x.body)]
+    if len(rm) != 1 or len(rm[0].body) != 1 or len(rm[0].orelse) != 1:
+        raise U('getbounds: raMargin')
+    if ast.dump(rm[0].body[0].value) != ast.dump(ast.parse('np.rad2deg(np.arcsin(sinMargin/cosDec))').body[0].value):
+        raise U('getbounds: raMargin = rad2deg(arcsin(sinMargin/cosDec))')
+    out.append(defn('gen_ramargin_cap_clear', '(marginSize sinMargin cosDec : Q)', 'bool', qcond(rm[0].test, me)))
+    out.append(defn('gen_ramargin_full', '', 'Q', qx(name_assign(rm[0].orelse[0], 'raMargin'), me)))
+
+
 def defn(name, args, typ, body):
-    return 'Definition %s %s : %s :=\n  %s.\n' % (name, args, typ, body)
+    return 'Definition %s%s : %s :=\n  %s.\n' % (name, (' ' + args) if args else '', typ, body)
 
 
 def generate(repo):
@@ -319,8 +753,16 @@ def generate(repo):
         out.append('From PV Require Import C05.Imp.')
         out.append('Open Scope string_scope.')
         out += T5.generate_greedy(repo)
+        out.append('(* round 5: what decides the grid (rarange, getraminmax, chunks.__init__) and the head / pair loop of spherematch() *)')
+        out.append('From Coq Require Import Qabs.')
+        out.append('From PV Require Import C04.SceneModel.')
+        out.append('Close Scope string_scope. Close Scope Z_scope.')
+        gen_wrapra(cls[0], out)
+        gen_rarange(cls[0], out)
+        gen_init(cls[0], out)
+        gen_match_head(tree, cls[0], out)
         out.append('Definition chunks_recognised : bool := true.')
-    except (U, SyntaxError, KeyError, IndexError, AttributeError) as e:
+    except (U, SyntaxError, KeyError, IndexError, AttributeError, TypeError) as e:
         info['recognised'] = False
         info['detail'].append('%s: %s' % (type(e).__name__, e))
         return None, info
